@@ -59,7 +59,9 @@ class EngineLineCropper(object):
         coords = np.dot(coords, np.linalg.inv(R))
         if self.poly:
             if coords.shape[0] > 2:
-                line_interpf = np.poly1d(np.polyfit(coords[:,0], coords[:,1], self.poly))
+                # a polynomial of a higher degree is not determined by the points (the fit would depend on where the line lies on the page)
+                degree = max(1, min(self.poly, np.unique(coords[:,0]).shape[0] - 1))
+                line_interpf = np.poly1d(np.polyfit(coords[:,0], coords[:,1], degree))
             else:
                 line_interpf = np.poly1d(np.polyfit(coords[:,0], coords[:,1], 1))
         else:
